@@ -189,6 +189,9 @@ func BuildEngine(c *Case, reg prometheus.Registerer) (queryEngine, []*mstore.Sto
 	var remotes []api.RemoteEngine
 	var stores []*mstore.Store
 	ro := EngineOpts(c.O, nil)
+	if c.O.RemoteNoFallback {
+		ro.DisableFallback = true
+	}
 	for _, p := range parts {
 		st, err := BuildStore(p)
 		if err != nil {
